@@ -263,7 +263,7 @@ var auditKeys = []string{"timestamp", "principal", "role", "tool", "input_hash",
 
 // C20: MCP tools are gated, confined and audited.
 func C20(c *vlib.Ctx) {
-	c.Rule("the complete gating table: (31 known + 3 unknown tool names) x 3 roles x 4 flag combinations x principal present/absent x actor absent/equal/different (actor only for the tools that take one) is executed, one fresh mcp.NewServer per row over in-memory frames with minimal valid arguments, on a fixture of config file + SQLite queue file + pid file + stub run-binary; expected allow/refuse comes from a table transcribed by hand from internal/mcp/spec.md (cross-checked at run time against its '(requires --enable-...)' headings); before/after: sha256 of every file in the fixture directory (config, database, pid file), marker of the stub binary, number and fields of audit records. tools/list is compared with the callable set for each of the 24 server configurations. Confinement: config-writing tools with foreign, traversal and symlink paths, unknown keys and non-compiling content. distinct_nontrivial = distinct (tool, role, flags, principal, actor, expected) rows.")
+	c.Rule("the complete gating table: (31 known + 3 unknown tool names) x 3 roles x 4 flag combinations x principal present/absent x actor absent/equal/different (actor only for the tools that take one) is executed, one fresh mcp.NewServer per row over in-memory frames with minimal valid arguments, on a fixture of config file + SQLite queue file + pid file + stub run-binary; expected allow/refuse comes from a table transcribed by hand from internal/mcp/spec.md (cross-checked at run time against its '(requires --enable-...)' headings); before/after: sha256 of every file in the fixture directory (config, database, pid file), marker of the stub binary, number and fields of audit records. tools/list is compared with the callable set for each of the 24 server configurations. Confinement: config-writing tools with foreign, traversal and symlink paths, unknown keys and non-compiling content; write failures (config path occupied by a directory); a config path that does not exist yet (write_only, write_and_reload that must roll back, preview, non-compiling content; called once and twice: the path ends absent or compiling). distinct_nontrivial = distinct (tool, role, flags, principal, actor, expected) rows.")
 	c.Set("exhaustive", true)
 	root := c.Scratch()
 	if err := c20MakeTemplate(root); err != nil {
@@ -417,6 +417,7 @@ func C20(c *vlib.Ctx) {
 	c20NameSpellings(c, root, &row)
 	c20ActorShapes(c, root, &row)
 	c20WriteFailures(c, root, &row)
+	c20FreshPath(c, root, &row)
 	c20AuditLive(c, root)
 }
 
@@ -516,6 +517,78 @@ func c20WriteFailures(c *vlib.Ctx, root string, row *int) {
 				}
 				_ = os.RemoveAll(f.Dir)
 			}
+		}
+	}
+}
+
+// c20FreshPath: the configured config path does not exist yet (first
+// provisioning through MCP). Whatever the call does - write, refuse, write and
+// roll back because no instance takes the file over - the path afterwards is
+// either absent or holds content that parses and compiles, nothing else in the
+// directory changes, and the call is audited once.
+func c20FreshPath(c *vlib.Ctx, root string, row *int) {
+	valid := c20Config + "/extra { pull { path /pull/extra } }\n"
+	calls := []struct {
+		name      string
+		args      map[string]any
+		mayCreate bool
+	}{
+		{"write_only", map[string]any{"content": valid, "mode": "write_only"}, true},
+		{"write_and_reload_without_instance", map[string]any{"content": valid, "mode": "write_and_reload", "reload_timeout": "100ms"}, false},
+		{"write_and_reload_default_timeout_class", map[string]any{"content": valid, "mode": "write_and_reload", "reload_timeout": "1ms"}, false},
+		{"preview_only", map[string]any{"content": valid, "mode": "preview_only"}, false},
+		{"parse_error_content", map[string]any{"content": "/broken {", "mode": "write_only"}, false},
+		{"compile_error_content_write_and_reload", map[string]any{"content": "/a { pull { path /p } }\n/a { pull { path /q } }\n", "mode": "write_and_reload", "reload_timeout": "100ms"}, false},
+	}
+	for _, cl := range calls {
+		for rep := 0; rep < 2; rep++ {
+			*row++
+			f, err := c20NewFixture(root, *row)
+			if err != nil {
+				c.Inconclusive(err.Error())
+				return
+			}
+			_ = os.Remove(f.Cfg)
+			before := c20Snapshot(f.Dir)
+			var ro rpcOut
+			var recs []map[string]any
+			for k := 0; k <= rep; k++ {
+				ro, recs, err = c20Call(f, "admin", true, true, "alice", "tools/call", map[string]any{"name": "config_apply", "arguments": cl.args})
+			}
+			after := c20Snapshot(f.Dir)
+			if err != nil {
+				c.Inconclusive("C20 fresh path case: " + err.Error())
+				_ = os.RemoveAll(f.Dir)
+				continue
+			}
+			c.Count("evaluations", 1)
+			c.Count("fresh_path_calls", 1)
+			text := ""
+			if len(ro.Result.Content) > 0 {
+				text = ro.Result.Content[0].Text
+			}
+			b, rerr := os.ReadFile(f.Cfg)
+			c.Distinct("nontrivial", fmt.Sprintf("fresh_path:%s:calls=%d:file_after=%v:is_error=%v", cl.name, rep+1, rerr == nil, ro.Result.IsError))
+			wit := map[string]any{"case": cl.name, "arguments": cl.args, "calls": rep + 1, "is_error": ro.Result.IsError, "text": text[:minInt(300, len(text))], "fs_diff": fsDiff(before, after), "audit": recs, "file_after_len": len(b), "file_after_exists": rerr == nil}
+			for _, d := range fsDiff(before, after) {
+				if d != "created:Hookaidofile" {
+					c.Violation(vlib.Signature{"class": "touched_other_file", "tool": "config_apply", "case": "fresh_path:" + cl.name, "what": d}, fmt.Sprintf("config_apply on a config path that did not exist changed something else: %s", d), wit)
+				}
+			}
+			if rerr == nil {
+				if cfg, err := config.Parse(b); err != nil {
+					c.Violation(vlib.Signature{"class": "config_file_does_not_parse", "case": "fresh_path:" + cl.name}, fmt.Sprintf("the config path did not exist before; after config_apply (%s) it holds %d bytes that do not parse: %v", cl.name, len(b), err), wit)
+				} else if _, res := config.Compile(cfg); !res.OK {
+					c.Violation(vlib.Signature{"class": "config_file_does_not_compile", "case": "fresh_path:" + cl.name}, fmt.Sprintf("the config path did not exist before; after config_apply (%s) its content does not compile: %v", cl.name, res.Errors), wit)
+				}
+				if !cl.mayCreate {
+					c.Violation(vlib.Signature{"class": "config_written_unexpectedly", "case": "fresh_path:" + cl.name}, fmt.Sprintf("config_apply (%s) must not leave a config file where there was none", cl.name), wit)
+				}
+			}
+			if len(recs) != 1 {
+				c.Violation(vlib.Signature{"class": "audit_record_count", "tool": "config_apply", "case": "fresh_path"}, fmt.Sprintf("%d audit records for one mutating call", len(recs)), wit)
+			}
+			_ = os.RemoveAll(f.Dir)
 		}
 	}
 }
